@@ -252,7 +252,7 @@ Proof.
   induction rem as [|r IH]; intros s m H; simpl.
   - destruct (get_m s m) as [x|]; auto. apply Qm_finish_m; auto.
   - destruct (get_m s m) as [x|] eqn:Hx; auto.
-    destruct (m_bad x).
+    destruct (nth (m_idx x) (m_bad x) false).
     + apply IH. apply Qm_put_m; auto.
       eapply Pm_same; [..|apply (H m x Hx)]; cbn; auto.
     + pose proof (Qm_try_start s m x H) as Ht.
